@@ -105,8 +105,9 @@ end function {fname}
 def get_sign_def(idx: int, out_shape: Union[tuple, str] = '', dtype: str = 'real') -> tuple:
     isarray = len(out_shape) > 0
     fname = f"fsign_{idx}"
-    sign_n = f"s = size(x)\ndo n=1,s\n  {fname}(n) = sign(a,x(n))\nend do"
-    sign_0 = f"{fname} = sign(a,x)"
+    # (sign(0) = 0 as on the other backends; the Fortran intrinsic `sign(a, 0)` would return +a)
+    sign_n = f"s = size(x)\ndo n=1,s\n  {fname}(n) = merge(x(n), sign(a,x(n)), x(n) == 0)\nend do"
+    sign_0 = f"{fname} = merge(x, sign(a,x), x == 0)"
 
     func = f"""
 function {fname}(x)
